@@ -1929,6 +1929,8 @@ class MapResult(ApplyResult):
 
 class IMapIterator:
     _worker_lost = None
+    _write_to = None
+    _scheduled_for = None
 
     def __init__(self, cache, lost_worker_timeout=LOST_WORKER_TIMEOUT):
         self._cond = threading.Condition(threading.Lock())
@@ -1997,6 +1999,12 @@ class IMapIterator:
 
     def _ack(self, i, time_accepted, pid, *args):
         self._worker_pids.append(pid)
+
+    def _set_terminated(self, signum=None):
+        try:
+            raise Terminated(-(signum or 0))
+        except Terminated:
+            self._set(None, (False, ExceptionInfo()))
 
     def ready(self):
         return self._ready
